@@ -69,6 +69,19 @@ class HandlerCollection:
         """Clone this collection with additional (selector, accumulator) pairs."""
         return type(self)(self.handler_pairs + handler_pairs)
 
+    def minus(self, handler_pairs):
+        """Clone this collection without the given (selector, accumulator) pairs."""
+        to_remove = [acc for _, acc in handler_pairs]
+        remaining = []
+        for sel, acc in self.handler_pairs:
+            for i, x in enumerate(to_remove):
+                if x is acc:
+                    del to_remove[i]
+                    break
+            else:
+                remaining.append((sel, acc))
+        return type(self)(remaining)
+
     def proceed(self, fn):
         """Proceed into a call to fn with this collection.
 
@@ -179,12 +192,24 @@ class BaseOverlay:
                 collection = HandlerCollection(handlers)
             else:
                 collection = curr.plus(handlers)
+            self._entered = (collection, handlers)
             self.reset = HandlerCollection.current.set(collection)
             return collection
 
     def __exit__(self, typ, exc, tb):
         if self.handlers:
-            HandlerCollection.current.reset(self.reset)
+            collection, handlers = self._entered
+            curr = HandlerCollection.current.get()
+            if curr is collection or curr is None:
+                HandlerCollection.current.reset(self.reset)
+            else:
+                # Other overlays were entered after this one and are still
+                # active (e.g. global probes deactivated out of order), so
+                # we only remove our own handlers.
+                remaining = curr.minus(handlers)
+                HandlerCollection.current.set(
+                    remaining if remaining.handler_pairs else None
+                )
 
 
 class Overlay(BaseOverlay):
